@@ -77,8 +77,10 @@ contract(
         "starting-at-1": "result >= 1",
         "table": TABLE,
         "purge-only": "forall(lambda x: implies(x in JOBS, old(x in JOBS) and JOBS[x] == old(JOBS[x])))",
+        # "lowest free" is meant among the jobs that still exist: the numbers of finished jobs are free again
+        "finished-jobs-are-gone-before-numbering": "forall(lambda x: implies(x in JOBS, not old(dead(x))))",
     },
-    from_property="under a unique number - the lowest free one, starting at 1",
+    from_property="under a unique number - the lowest free one, starting at 1 - and finished jobs disappear",
 )
 
 # every registered job carries a status and at least one pid (add_job sets the status; the pids
